@@ -79,6 +79,7 @@ MC_DEPS = {
     "Cursor": ["MCCursor.tla"],
     "CloneFrom": ["MCCloneFrom.tla"],
     "CursorZst": ["MCCursor.tla"],
+    "Entry": ["Hashbrown.tla", "Griddle.tla", "GriddleCount.tla", "MCGriddle.tla", "MCEntry.tla"],
     "Overflow": ["Hashbrown.tla", "GriddleCount.tla", "MCCount.tla"],
     "OverflowDbg": ["Hashbrown.tla", "GriddleCount.tla", "MCCount.tla"],
 }
@@ -92,6 +93,12 @@ MC = {
     "Iter": {
         "quick": ("MCIter", "MCIter", 4, 3600),
         "thorough": ("MCIter", "MCIter5", 8, 3600),
+    },
+    # C12: entry / raw-entry handles as processes holding (table, bucket) across accessor calls; every
+    # accessor in every reachable state of the two-table model, refinement to RefMap and GriddleCount
+    "Entry": {
+        "quick": ("MCEntry", "MCEntry", 4, 3600),
+        "thorough": ("MCEntry", "MCEntry5", 8, 3600),
     },
     # C15: griddle's rayon bridge (main table, then old table; hashbrown's group-range split) under every
     # split/steal schedule, every occupancy pattern; with the liveness property Terminates
@@ -167,7 +174,7 @@ PROPS = {
     # a failed semantic monitor on a map that is the product of clone / clone_from in that run (a lookup
     # missing in the clone, wrong contents after a later call, ...) is C11's
     "C11": dict(suites=["two_heap", "two_plain_rel", "set_two", "defects", "repo_tests"], mc=["CountR8", "Small", "CloneFrom"], on_clones=True),
-    "C12": dict(suites=["entry_heap", "entry_plain", "core_heap", "rel_heap", "core_plain", "core_zst", "defects"], mc=["Small"]),
+    "C12": dict(suites=["entry_heap", "entry_plain", "core_heap", "rel_heap", "core_plain", "core_zst", "defects"], mc=["Entry", "Small"]),
     "C13": dict(suites=["set_heap", "set_two", "set_zst"], mc=["Small"]),
     "C14": dict(suites=["meta_heap", "meta_plain", "meta_set", "meta_zst"], mc=["Small"],
                 monitors=["eq_is_content_equality", "debug_shows_contents", "lookup_result", "set_contains_result",
